@@ -9,7 +9,23 @@ pub fn parse_l(tok: &str) -> Vec<u64> {
     body.split(',').map(|x| x.parse::<u64>().unwrap()).collect()
 }
 
+/// `B<hex>` = the bytes; `P<len>:<hex>` = the pattern repeated / truncated to <len> bytes (compact form for
+/// large periodic inputs; an empty pattern stands for a zero byte).
 pub fn parse_b(tok: &str) -> Vec<u8> {
+    if tok.as_bytes()[0] == b'P' {
+        let (len, pat) = tok[1..].split_once(':').expect("P<len>:<hex>");
+        let len: usize = len.parse().expect("P<len>");
+        let mut pat = parse_b(&format!("B{}", pat));
+        if pat.is_empty() {
+            pat.push(0);
+        }
+        let mut out = Vec::with_capacity(len);
+        while out.len() < len {
+            let k = std::cmp::min(pat.len(), len - out.len());
+            out.extend_from_slice(&pat[..k]);
+        }
+        return out;
+    }
     let body = &tok.as_bytes()[1..];
     let mut out = Vec::with_capacity(body.len() / 2);
     let hv = |c: u8| -> u8 {
